@@ -153,7 +153,8 @@ CREATE_MANIFEST_CONTEXT = Contract(
             'stream.events.append': append_event},
     loops={0: Loop(
         invariant=[('it', '0 <= _it0 and _it0 <= self.count'),
-                   ('pt', 'presentation_time == self.start + _it0 * self.interval'),
+                   # the running time of the loop, where the code keeps one in a local of this name (a temporary, not part of the property)
+                   ('pt', "(presentation_time == self.start + _it0 * self.interval) if bound('presentation_time') else True"),
                    ('len', 'length(stream.events) == _it0'),
                    ('events', 'forall(lambda k: stream.events[k].id == k and stream.events[k].duration == self.duration and '
                               'stream.events[k].presentationTime == self.start + k * self.interval, 0, length(stream.events))')],
